@@ -21,11 +21,13 @@ import (
 	"sort"
 	"strings"
 
+	"github.com/cronokirby/saferith"
 	"github.com/fxamacker/cbor/v2"
 	"github.com/taurusgroup/multi-party-sig/pkg/ecdsa"
 	"github.com/taurusgroup/multi-party-sig/pkg/math/curve"
 	"github.com/taurusgroup/multi-party-sig/pkg/math/polynomial"
 	"github.com/taurusgroup/multi-party-sig/pkg/math/sample"
+	"github.com/taurusgroup/multi-party-sig/pkg/paillier"
 	"github.com/taurusgroup/multi-party-sig/pkg/party"
 	"github.com/taurusgroup/multi-party-sig/pkg/protocol"
 	"github.com/taurusgroup/multi-party-sig/pkg/taproot"
@@ -341,7 +343,7 @@ func (c *ctx) c15OneMessage(m *protocol.Message, class string, valid bool, prefi
 	}
 	// property: what was written is what comes back
 	if pan != "" || uerr != nil || !c15MsgEq(m0, m) {
-		key, desc := "C15/protocol.Message/From/bad-value", "a message whose party id is not valid UTF-8 is written without error and comes back empty/unchanged with a nil error"
+		key, desc := "C15/protocol.Message/From/bad-value", fmt.Sprintf("a message whose party id is not valid UTF-8 is written by MarshalBinary without error and cannot be restored (UnmarshalBinary: %v)", uerr)
 		if valid {
 			key, desc = "C15/protocol.Message/roundtrip/"+class, "a message does not survive MarshalBinary -> UnmarshalBinary"
 		}
@@ -683,20 +685,34 @@ var c15PC, _ = new(big.Int).SetString("e10c83b59fe446bfc3bf8a9e388c2389144c12f3a
 var c15PS, _ = new(big.Int).SetString("9079f0daff9edfa72f2f6aa497b20148128454f246a08e60abd172e228b24c58e43f4824e2bc664d52a1d17cac5aac1760825d089c945bab733e6649f88115a92c3dddc9ccc4f9b9aa809a0d880a5f2db65d45cf08febad6a790123b1c8e90ef3747b67f5ce2641194adbc3f9944e10ea9c4fc8e372ce568a3016c8672c12553", 16)
 
 func (c *ctx) c15PrimeOracle() {
-	for name, p := range map[string]*big.Int{"P0": c15P0, "Q0": c15Q0, "PC": c15PC, "PS": c15PS} {
+	names := []string{"P0", "Q0", "PC", "PS"}
+	vals := map[string]*big.Int{"P0": c15P0, "Q0": c15Q0, "PC": c15PC, "PS": c15PS}
+	for _, name := range names {
+		p := vals[name]
 		half := new(big.Int).Rsh(p, 1)
-		goSays := half.ProbablyPrime(20)
-		rep, err := c.m.Call("cbor.validate_prime", sx.Big(p))
+		goHalf := half.ProbablyPrime(20)
+		// premise of the *_v0 refutations: the old ValidatePrime (which looked at (p-1)/2 only) accepts
+		v0, err := c.m.Call("cbor.validate_prime_v0", sx.Big(p))
 		if err != nil {
-			c.res.Violate("correspondence", "C15/model-error/cbor.validate_prime", err.Error(), c15Replay{Type: "oracle", What: "model error"})
+			c.res.Violate("correspondence", "C15/model-error/cbor.validate_prime_v0", err.Error(), c15Replay{Type: "oracle", What: "model error"})
 			return
 		}
-		ok := goSays && rep.AsBool() && p.BitLen() == 1024
+		// the repaired ValidatePrime: Go (the library function itself) and the model agree; PC (= 3 * ...) is refused
+		v1, err := c.m.Call("cbor.validate_prime", sx.Big(p))
+		if err != nil {
+			return
+		}
+		goNow := paillier.ValidatePrime(new(saferith.Nat).SetBig(p, 1024)) == nil
+		want := name != "PC"
+		ok := goHalf && v0.AsBool() && p.BitLen() == 1024 && goNow == want && v1.AsBool() == want && p.ProbablyPrime(20) == want
 		c.res.Corr(ok)
 		c.res.Case("oracle/"+name, name, true)
 		if !ok {
-			c.res.Violate("correspondence", "C15/oracle-premise/"+name, "the primality premise of a Coq refutation does not hold on Go / the model",
-				c15Replay{Type: "oracle", What: name, Go: fmt.Sprint(goSays), Model: rep.String()})
+			c.res.Violate("correspondence", "C15/oracle-premise/"+name, "the primality facts behind the Coq statements about P0, Q0, PC, PS do not hold on Go / the model",
+				c15Replay{Type: "oracle", What: name, Go: fmt.Sprint(goHalf, goNow), Model: v0.String() + v1.String()})
+		}
+		if goNow && !p.ProbablyPrime(20) {
+			c.res.Violate("property", "C15/paillier.ValidatePrime/"+name, "ValidatePrime accepts a composite number", c15Replay{Type: "oracle", What: name})
 		}
 	}
 }
